@@ -188,7 +188,8 @@ def run(ctx):
     tlc_dead = set()
     for r in recs:
         if r["t"] == "ready":
-            ready[tuple(r["entries"])] = r
+            # several outcomes per entry list when the model had to take either branch of an `if`
+            ready.setdefault(tuple(r["entries"]), []).append(r)
             for miss in r["missing"]:
                 predicted_bad = True
                 find.add("AllAdvertised:%s:%s" % (miss["m"], miss["name"]),
@@ -242,19 +243,21 @@ def run(ctx):
     for es in lists:
         key = tuple(es)
         probe = probes[key]
-        rec = ready.get(key)
+        outcomes = ready.get(key, [])
+        may_fail = any(r["t"] == "failed" and tuple(r["entries"]) == key for r in recs)
         ctx.case(["import", es], nontrivial=es != ["lena"])
         if "import_error" in probe:
-            import_error(data, find, probe["import_error"])
-            if rec is not None:
+            ie = probe["import_error"]
+            import_error(data, find, ie)
+            if not may_fail:
                 raise core.MachineryError("model predicts that importing %s succeeds, the interpreter raised %s: %s"
                                           % (es, ie["cls"], ie["msg"]))
             continue
-        if rec is None:
+        if not outcomes:
             raise core.MachineryError("model predicts that importing %s fails, the interpreter succeeded" % (es,))
-        diff = compare_ready(ctx, rec, probe, modules)
-        if diff:
-            raise core.MachineryError("model and interpreter disagree after importing %s: %s" % (es, diff))
+        diffs = [compare_ready(ctx, rec, probe, modules) for rec in outcomes]
+        if all(diffs):
+            raise core.MachineryError("model and interpreter disagree after importing %s: %s" % (es, diffs[0]))
         traces.append(probe["events"])
         # star imports are executed
         for e, st in probe.get("stars", {}).items():
@@ -266,8 +269,8 @@ def run(ctx):
             elif st["all"] is not None and st["bound"] != st["all"]:
                 find.add("AllAdvertised:%s:star-binds-other-names" % e, bound=st["bound"], advertised=st["all"])
     for key in sorted(ready, key=lambda k: (k[0] not in subs or len(k) > 1, k))[:1]:
-        ctx.sample({"model_prediction": {"entries": list(key), "sys_modules_order": ready[key]["order"][:14],
-                                         "namespace_of_" + key[0]: sorted(ready[key]["mods"][key[0]])[:40]}})
+        ctx.sample({"model_prediction": {"entries": list(key), "sys_modules_order": ready[key][0]["order"][:14],
+                                         "namespace_of_" + key[0]: sorted(ready[key][0]["mods"][key[0]])[:40]}})
 
     # ------------------------------------------------------------------ smoke table: only X imported vs everything
     sm = allres
